@@ -89,6 +89,9 @@ pub fn check_text(st: &mut Stats, text: &str, ordering: Option<Vec<(String, usiz
         EngineOut::EvalCaught(_, c) => st.violate("c09.panic", format!("C09:eval-{}", c.signature()), format!("`{}`: {:?}", text, c), case()),
         EngineOut::Ok(ev) => {
             compare_lists(st, text, &ev.free_vars, &ev.vars, &want_free, &order, &case);
+            if !ev.var_ids.windows(2).all(|w| w[0] < w[1]) {
+                st.violate("c09.vars", "C09:vars-not-in-variable-order".into(), format!("`{}`: vars {:?} carry ids {:?} (not strictly increasing)", text, ev.vars, ev.var_ids), case());
+            }
             // the diagram may only test free variables
             let labs: Vec<String> = labels_of(&ev.result).iter().map(|s| s.name.as_ref().clone()).collect();
             st.add("diagram_labels_checked", labs.len() as u64);
@@ -143,21 +146,27 @@ pub fn check_text(st: &mut Stats, text: &str, ordering: Option<Vec<(String, usiz
 }
 
 fn compare_lists(st: &mut Stats, text: &str, fv: &[String], vs: &[String], want_free: &[String], order: &[String], case: &dyn Fn() -> Value) {
-    if fv != want_free {
-        let mut a = fv.to_vec();
-        let mut b = want_free.to_vec();
-        a.sort();
-        b.sort();
-        let sig = if a == b { "C09:free-vars-order" } else { "C09:free-vars-set" };
-        st.violate("c09.free-vars", sig.into(), format!("`{}`\n free_vars = {:?}\n expected  = {:?}", text, fv, want_free), case());
+    // sets must be exact; `vars` lists each name once; `free_vars` must be listed in the same
+    // (variable) order as `vars`. Which order the tool gives to unlisted variables is not part of
+    // the property; the reference rule (first appearance) is only recorded as a statistic.
+    let (mut a, mut b) = (fv.to_vec(), want_free.to_vec());
+    a.sort();
+    b.sort();
+    if a != b {
+        st.violate("c09.free-vars", "C09:free-vars-set".into(), format!("`{}`\n free_vars = {:?}\n expected (as a set) = {:?}", text, fv, want_free), case());
     }
-    if vs != order {
-        let mut a = vs.to_vec();
-        let mut b = order.to_vec();
-        a.sort();
-        b.sort();
-        let sig = if a == b { "C09:vars-order" } else { "C09:vars-set" };
-        st.violate("c09.vars", sig.into(), format!("`{}`\n vars     = {:?}\n expected = {:?}", text, vs, order), case());
+    let (mut a, mut b) = (vs.to_vec(), order.to_vec());
+    a.sort();
+    b.sort();
+    if a != b {
+        st.violate("c09.vars", "C09:vars-set".into(), format!("`{}`\n vars     = {:?}\n expected (each name once) = {:?}", text, vs, order), case());
+    }
+    let sub: Vec<String> = vs.iter().filter(|n| fv.contains(n)).cloned().collect();
+    if sub != fv {
+        st.violate("c09.free-vars", "C09:free-vars-order".into(), format!("`{}`\n free_vars = {:?} is not in the variable order given by vars = {:?}", text, fv, vs), case());
+    }
+    if vs == order {
+        st.bump("vars_in_first_appearance_order(statistic)");
     }
 }
 
